@@ -38,28 +38,30 @@ theorem C08_LoneAnonymousOperation (s : Schema) (d : QueryDoc) :
   unfold loneAnonymousOperation
   rw [validate_stateless_nil s d _ _ evs hw]
   have key : (∀ e ∈ evs, loneAnonymousOperationStep s.view d e = []) ↔
-      ∀ op ∈ d.ops, ¬ ((op.name == [] && decide (d.ops.length > 1)) = true) := by
-    rw [← hev]
+      ∀ op ∈ d.ops, ¬ (op.name = [] ∧ d.ops.length > 1) := by
     constructor
     · intro h op hop
+      rw [← hev] at hop
       obtain ⟨e, he, u, hp⟩ := mem_opEvents.1 hop
       have := h e he
       simp only [loneAnonymousOperationStep, hp] at this
-      intro hc
-      rw [hev] at hc
-      simp [hc] at this
+      rintro ⟨h1, h2⟩
+      simp [h1, h2] at this
     · intro h e he
       unfold loneAnonymousOperationStep
-      cases hp : e.p <;> simp only
-      rename_i op u
-      have := h op (mem_opEvents.2 ⟨e, he, u, hp⟩)
-      rw [hev] at this
-      simp only [this]
-      rfl
+      split
+      · rename_i op u hp
+        have hop : op ∈ d.ops := hev ▸ mem_opEvents.2 ⟨e, he, u, hp⟩
+        have := h op hop
+        split
+        · rename_i hc
+          simp only [Bool.and_eq_true, beq_iff_eq, decide_eq_true_eq] at hc
+          exact absurd hc this
+        · rfl
+      · rfl
   rw [key]
   unfold Spec.loneAnonymousOperation
-  simp only [Bool.or_eq_true, decide_eq_true_eq, List.all_eq_true, bne_iff_ne, ne_eq, Bool.and_eq_true,
-    beq_iff_eq, not_and]
+  simp only [Bool.or_eq_true, decide_eq_true_eq, List.all_eq_true, bne_iff_ne, ne_eq, not_and]
   constructor
   · intro h
     by_cases hl : d.ops.length ≤ 1
@@ -134,7 +136,8 @@ theorem C08_UniqueOperationNames (s : Schema) (d : QueryDoc) (hl : Spec.loneAnon
         apply List.filter_eq_nil_iff.2
         intro op hop
         simpa using hl op hop
-      simp [this]
+      rw [this]
+      simp
 
 /-- §5.5.2.1 — KnownFragmentNames reports nothing iff every spread written in the document names a
     defined fragment -/
@@ -151,7 +154,8 @@ theorem C08_default_LoneAnonymousOperation (s : Schema) (d : QueryDoc) (errs : L
     (h : validate defaultRules s d = .ok errs) :
     (errs.filter fun x => decide (x.rule = loneAnonymousOperation.name)) = [] ↔
       Spec.loneAnonymousOperation d = true := by
-  have hmem : loneAnonymousOperation ∈ defaultRules := by decide
+  have hmem : loneAnonymousOperation ∈ defaultRules :=
+    List.mem_filterMap.2 ⟨"LoneAnonymousOperation", by decide, rfl⟩
   have hd : (defaultRules.map (·.name)).Nodup := by decide
   have hu : validate [loneAnonymousOperation] s d =
       .ok (errs.filter fun x => decide (x.rule = loneAnonymousOperation.name)) := by
